@@ -814,7 +814,7 @@ def rcos(x, alpha, T):
         raise ValueError('`x` must be a number or an array_like.')
     
     x = np.array(x)
-    H = np.zeros_like(x)
+    H = np.zeros(x.shape, dtype=float)
 
     H[ first_condition ] = 1
     if alpha != 0:
